@@ -762,6 +762,15 @@ def status_gates_in_chain(db, body, site, fresh_only=True):
     return out
 
 
+def ok_return_sites(fn):
+    """sites of the `Result::Ok(..)` aggregates that become the function's return value (directly or through a temporary)"""
+    out = []
+    for r in fn.origins([0, []]):
+        if r["k"] == "agg" and r["stmt"]["rv"].get("variant") == "Ok" and (r["stmt"]["rv"].get("adt") or "").endswith("result::Result"):
+            out.append(r["site"])
+    return out
+
+
 def place_ty(db, fn, p, depth=0):
     """type of a place that is a plain local or a captured upvar (`_1.f:i`) of a closure/coroutine"""
     l, proj = p
